@@ -337,6 +337,17 @@ pub fn run(run: &mut Run) -> PResult {
     if classes.len() != 310 || names.len() != 10 {
         run.violation("C06.variant", "count", json!({"classes": classes.len(), "names": names.len()}), &format!("{} class variants and {} category variants, expected 310 and 10 (with Invalid)", classes.len(), names.len()))?;
     }
+    {
+        let expected: Vec<HandRank> = (0..=u16::MAX).map(HandRank::from).collect();
+        count_soak(run, "HandRank::from over all values, repeatedly", (1 << 27) + (1 << 12), &|n| {
+            let v = (n.wrapping_mul(40503) % 65536) as u16;
+            let r = HandRank::from(v);
+            if r != expected[v as usize] || r.value != v {
+                return Err(format!("HandRank::from({}) = {:?}/{:?} value {}, earlier in this process it was {:?}/{:?}", v, r.name, r.class, r.value, expected[v as usize].name, expected[v as usize].class));
+            }
+            Ok(())
+        })?;
+    }
     // hands
     let ranks: Vec<HandRank> = (0..=7462u16).map(HandRank::from).collect();
     hands::<5>(run, 1, &ranks)?;
@@ -348,7 +359,10 @@ pub fn run(run: &mut Run) -> PResult {
 }
 
 pub fn check_case(clause: &str, case: &Value) -> Result<(), String> {
-    if clause.ends_with(".after_disturbance") || clause.ends_with(".concurrent") || clause.ends_with(".concurrent_cold_start") {
+    if clause.ends_with(".soak") {
+        return Err("the conversion soak is replayed by running ./check C06 quick".into());
+    }
+    if clause.ends_with(".after_disturbance") || clause.ends_with(".concurrent") || clause.ends_with(".concurrent_cold_start") || clause.ends_with(".after_repetition") {
         return replay_after_disturbance(case, check_case);
     }
     match clause {
@@ -376,3 +390,4 @@ pub fn check_case(clause: &str, case: &Value) -> Result<(), String> {
         }
     }
 }
+
